@@ -24,7 +24,7 @@ ck.log("genmodel done")
 gen_failed = not ok
 if not ok:
     broken.append(("genmodel: lock/op traces, once-guard or iterate shape of go/ir no longer recognised", out[-3000:]))
-ok, out = ck.coq_make(["Model/C18_Check.vo", "Proofs/C18_Task.vo", "Proofs/C18_Sync.vo", "Examples/C18.vo"])
+ok, out = ck.coq_make(["Model/C18_Check.vo", "Proofs/C18_Task.vo", "Proofs/C18_Sync.vo", "Proofs/C18_Check.vo", "Examples/C18.vo"])
 if not ok:
     ok2, out2 = ck.coq_make(["Model/C18_Check.vo"])
     broken.append(("coq-make", out[-3000:]))
@@ -75,23 +75,40 @@ REPO_PKGS = "./analysis/dfa/...,./internal/xtools-internal/graph/...,./internal/
 if ck.thorough():
     params = ["-progs", "8", "-reps", "3", "-modes", "4",
               "-scenarios", "serial:4,parallel:1,parallel:2,parallel:4,parallel:16,concurrent:16,concurrent:2,concurrent:4",
-              "-repopkgs", REPO_PKGS, "-timeout", "900s"]
+              "-repopkgs", REPO_PKGS, "-timeout", "1800s"]
     race_runs = [("concurrent:16", "3", "2"), ("parallel:4", "3", "2"), ("concurrent:2", "2", "2"), ("parallel:16", "2", "1")]
 else:
     params = ["-progs", "2", "-reps", "1", "-modes", "2",
               "-scenarios", "serial:4,parallel:1,parallel:2,parallel:4,parallel:16,concurrent:16",
-              "-repopkgs", REPO_PKGS, "-reposcen", "serial:4,concurrent:16", "-timeout", "150s"]
+              "-repopkgs", REPO_PKGS, "-reposcen", "serial:4,concurrent:16", "-timeout", "600s"]
     race_runs = [("concurrent:16", "1", "1"), ("parallel:4", "1", "1")]
-args = [exe, "-work", work, "-out", res, "-seed", str(ck.seed), "-repo", REPO] + params
-ck.log("running", " ".join(args[1:]))
-rc, out = sh(args, timeout=7200)
-if rc != 0 or not os.path.exists(res):
-    ck.violation("harness-run", "harness run failed: " + out[-800:], {"log": out[-4000:], "cmd": " ".join(args)}, no_input=True)
-    ck.finish(NOCOV)
-data = json.load(open(res))
+def run_harness(params, res):
+    args = [exe, "-work", work, "-out", res, "-seed", str(ck.seed), "-repo", REPO] + params
+    ck.log("running", " ".join(args[1:]))
+    rc, out = sh(args, timeout=7200)
+    if rc != 0 or not os.path.exists(res):
+        ck.violation("harness-run", "harness run failed: " + out[-800:], {"log": out[-4000:], "cmd": " ".join(args)}, no_input=True)
+        ck.finish(NOCOV)
+    d = json.load(open(res))
+    ck.log("builds", d["Builds"], "dump comparisons", d["Functions"], "diffs", len(d.get("Diffs") or []),
+           "problems", len(d.get("Problems") or []), "crashes", len(d.get("Crashes") or []))
+    return d
+
+data = run_harness(params, res)
+if ck.thorough():
+    # the whole dependency closure (standard library included) of two repository packages built from syntax
+    heavy = run_harness(["-progs", "0", "-reps", "1", "-modes", "1", "-scenarios", "serial:4,parallel:4,concurrent:16",
+                         "-repopkgs", "./go/ir/irutil,./knowledge", "-repodeps", "-timeout", "1800s"], os.path.join(work, "heavy.json"))
+    for k in ("Diffs", "Problems", "Crashes", "RTDiffs"):
+        data[k] = (data.get(k) or []) + (heavy.get(k) or [])
+    for k in ("Builds", "Functions", "Shared", "Wanted2", "Configs"):
+        data[k] += heavy[k]
+    data["Scenarios"] = data["Scenarios"] + ["heavy:" + x for x in heavy["Scenarios"]]
+    for c in heavy.get("Cases") or []:
+        c["Events"] = (c.get("Events") or [])[:c.get("MVStart") or 0]     # build phase only (the rest is large)
+        c["MVStart"] = len(c["Events"])
+        data["Cases"].append(c)
 cases = data.get("Cases") or []
-ck.log("builds", data["Builds"], "dump comparisons", data["Functions"], "diffs", len(data.get("Diffs") or []),
-       "problems", len(data.get("Problems") or []), "crashes", len(data.get("Crashes") or []))
 
 def rerun(label):
     prog, mode, variant, scen = (label.split("#")[0].split("/") + ["", "", "", ""])[:4]
@@ -164,7 +181,7 @@ def lab(e):
 
 obs, obs_labels = [], []
 nevents = 0
-MVCAP = 6000 if ck.thorough() else 1000     # events of the MethodValue phase kept per build (a prefix of a run is a run)
+MVCAP = 6000 if ck.thorough() else 600     # events of the MethodValue phase kept per build (a prefix of a run is a run)
 for c in cases:
     evs = c.get("Events") or []
     mv = c.get("MVStart") or len(evs)
